@@ -7,7 +7,7 @@ W=/tmp/seedconf-$N
 git -C /repo worktree remove --force $W 2>/dev/null; rm -rf $W
 git -C /repo worktree add -q --detach $W HEAD || exit 3
 cd $W || exit 3
-export CARGO_TARGET_DIR=/tmp/seedconf-target
+export CARGO_TARGET_DIR=/tmp/seedconf-target-$(echo $N | cut -c1-3)
 {
 echo "== seed $N  (repo HEAD $(git -C /repo log --format=%h -1))"
 if ! git apply "$D/patch.diff"; then echo "RESULT patch: DOES-NOT-APPLY"; cd /; git -C /repo worktree remove --force $W; exit 3; fi
